@@ -8,5 +8,7 @@ VARIABLE hist
 RInit == Init /\ hist = <<>>
 RNext == \/ (Call /\ idc' = idc + 1 /\ UNCHANGED hist)
          \/ (Reply /\ hist' = Append(hist, last'))
+         \/ (Fault /\ hist' = Append(hist, last'))            \* whether the proxy surfaces or retries is its choice:
+         \/ (Surface /\ UNCHANGED hist)                       \* the replayer accepts either and checks every id sent
 Emit == (phase = "idle" /\ ncalls = MaxCalls) => PrintT(<<"BEHAVIOUR", ToJson([hist |-> hist])>>)
 =============================================================================
